@@ -5,6 +5,7 @@ package main
 import (
 	"fmt"
 	"go/token"
+	"go/types"
 	"strings"
 
 	"golang.org/x/tools/go/ssa"
@@ -219,6 +220,30 @@ func ruleHNSWLayerSearch(r *Run, rule string, ord bool) {
 			return
 		}
 		isLen := func(s string) bool { return strings.Contains(s, ".Len(") && strings.Contains(s, resultHeap) }
+		// ef: the size parameter, possibly clamped (`if ef < 1 { ef = 1 }`) — either operand may be it
+		isEf := func(a, b ssa.Value) bool {
+			isIntParam := func(v ssa.Value) bool {
+				pm, ok := v.(*ssa.Parameter)
+				if !ok {
+					return false
+				}
+				bt, ok := pm.Type().Underlying().(*types.Basic)
+				return ok && bt.Kind() == types.Int
+			}
+			for _, v := range []ssa.Value{a, b} {
+				if isIntParam(v) {
+					return true
+				}
+				if ph, ok := v.(*ssa.Phi); ok {
+					for _, e := range ph.Edges {
+						if isIntParam(e) {
+							return true
+						}
+					}
+				}
+			}
+			return false
+		}
 		switch {
 		case cmp.Op == token.LSS && cmp.L == worst && strings.HasSuffix(cmp.R, ".distance") && !strings.Contains(cmp.R, "[c(0)]"):
 			// worst < current.distance  (current popped from the exploration heap)
@@ -228,9 +253,9 @@ func ruleHNSWLayerSearch(r *Run, rule string, ord bool) {
 			if strings.Contains(cmp.L, "Distance.Calculate(") {
 				admitDist = true
 			}
-		case cmp.Op == token.LSS && isLen(cmp.L) && cmp.R == "P2":
+		case cmp.Op == token.LSS && isLen(cmp.L) && isEf(bo.Y, bo.X):
 			admitLen = true // len < ef
-		case cmp.Op == token.LSS && cmp.L == "P2" && isLen(cmp.R):
+		case cmp.Op == token.LSS && isLen(cmp.R) && isEf(bo.X, bo.Y):
 			evict = true // ef < len
 		}
 	})
